@@ -372,6 +372,112 @@ fn fam_medium(ctx: &CaseCtx, cov: &mut Cov) -> CaseOut {
     out
 }
 
+/// Streams over a 4096-byte dictionary whose output wraps the circular window
+/// one to three times and whose copies and matched literals read the window at
+/// its edges (slots 0, 1, 2, dict-2, dict-1 and random ones; distances incl.
+/// exactly the dictionary size), with every single cut: each symbol is then
+/// looked at by the dry run (the bounded look-ahead that decides whether a
+/// symbol can be decoded from the bytes at hand) at every offset.
+fn fam_wrapped(ctx: &CaseCtx, cov: &mut Cov) -> CaseOut {
+    let mut out = CaseOut::default();
+    let mut rng = ctx.rng();
+    const D: u64 = 4096;
+    let props = if rng.chance(1, 2) { Props::new(0, 0, 0) } else { crate::gen::l2gen::random_props_l2(&mut rng) };
+    let mut it = Interp::new();
+    let mut prog: Vec<Sym> = Vec::new();
+    let push = |s: Sym, it: &mut Interp, prog: &mut Vec<Sym>| {
+        it.step(&s);
+        prog.push(s);
+    };
+    for _ in 0..rng.range(8, 120) {
+        push(Sym::Lit(rng.byte()), &mut it, &mut prog);
+    }
+    let slots = [0u64, 1, 2, D - 2, D - 1];
+    let specials = rng.range(6, 28);
+    let mut edge_reads = 0u64;
+    for k in 0..specials {
+        // fill up to the next target position with long copies
+        let target = if k == 0 { D * rng.range(1, 3) + rng.below(D) } else { it.hist.len() as u64 + rng.range(0, 500) };
+        while (it.hist.len() as u64) < target {
+            let n = it.hist.len() as u64;
+            let len = (target - n).min(273);
+            if len < 2 {
+                push(Sym::Lit(rng.byte()), &mut it, &mut prog);
+            } else {
+                let dist = rng.range(1, n.min(D)) as u32;
+                push(Sym::Match { dist, len: len as u32 }, &mut it, &mut prog);
+            }
+        }
+        // a copy, then a literal coded against the byte at distance rep0: choose the distance so
+        // that this byte (or the start of the copy) sits in a chosen slot of the circular window
+        let len = rng.range(2, 40);
+        let pos_after = it.hist.len() as u64 + len;
+        let slot = if rng.chance(3, 4) { *rng.pick(&slots) } else { rng.below(D) };
+        let anchor = if rng.chance(2, 3) { pos_after } else { it.hist.len() as u64 };
+        let mut dist = (anchor + D - slot) % D;
+        if dist == 0 {
+            dist = D;
+        }
+        if dist > it.hist.len() as u64 {
+            continue;
+        }
+        push(Sym::Match { dist: dist as u32, len: len as u32 }, &mut it, &mut prog);
+        edge_reads += 1;
+        match rng.below(4) {
+            0 => push(Sym::ShortRep, &mut it, &mut prog),
+            1 => push(Sym::Rep { idx: 0, len: rng.range(2, 20) as u32 }, &mut it, &mut prog),
+            _ => {}
+        }
+        push(Sym::Lit(rng.byte()), &mut it, &mut prog);
+        for _ in 0..rng.range(0, 3) {
+            push(Sym::Lit(rng.byte()), &mut it, &mut prog);
+        }
+    }
+    let with_marker = rng.chance(1, 2);
+    if with_marker {
+        prog.push(Sym::Eos);
+    }
+    let (payload, table, hist) = match encode_program(&prog, props) {
+        Ok(x) => x,
+        Err(e) => {
+            out.harness_error(format!("encode: {:?}", e));
+            return out;
+        }
+    };
+    let mut file = sut::lzma_header(props.byte(), *rng.pick(&[4096u32, 0, 100]), Some(if with_marker { None } else { Some(hist.len() as u64) }));
+    let b = boundaries_of(file.len(), &table);
+    file.extend_from_slice(&payload);
+    let inp = Input { file, options: sut::default_options(), desc: format!("window-edge program: {} symbols, {} output bytes over a 4096-byte window, marker {}", prog.len(), hist.len(), with_marker), kind: 5, boundaries: b };
+    let os = oneshot(&inp);
+    if !(os.verdict.is_ok() && os.out == hist) {
+        out.harness_error(format!("one-shot decoder does not decode the constructed stream: {}", os.verdict.short()));
+        return out;
+    }
+    note_input(cov, &inp, &os);
+    cov.name("wrapped.copies_or_matched_literals_reading_a_window_edge", edge_reads);
+    cov.max("wrapped.window_laps", hist.len() as u64 / D);
+    let n = inp.file.len();
+    let d = DriveOpts::default();
+    for c in 0..=n {
+        if !compare(&mut out, cov, ctx, &inp, &os, &[c], &d, "single") {
+            break;
+        }
+    }
+    // an earlier cut that leaves bytes in the carry-over buffer, then every later cut nearby
+    for _ in 0..ctx.tier.pick(3, 20) {
+        let c1 = rng.usize_below(n + 1);
+        for c2 in c1..=(c1 + 24).min(n) {
+            if !compare(&mut out, cov, ctx, &inp, &os, &[c1, c2], &d, "pair") {
+                break;
+            }
+        }
+    }
+    cov.name("inputs_with_every_single_cut", 1);
+    out.nontrivial.push(case_hash(&[&inp.file, b"wrapped"]));
+    out.sample = Some(J::obj().set("input", J::s(inp.desc.as_str())).set("len", J::i(n)).set("oneshot", J::s(os.verdict.short())));
+    out
+}
+
 /// A stream whose last match costs 19 input bytes (the most a valid stream reaches
 /// with a 17 MiB history), cut at every position around that symbol, alone and
 /// after an earlier cut that leaves bytes in the carry-over buffer.
@@ -545,7 +651,7 @@ pub fn monitor(tier: Tier) -> Monitor {
     Monitor {
         id: "C05",
         level: "exploration",
-        rule: "cases = (input bytes, decode option, division into write calls): inputs of 8 kinds (C08 table cells incl. wrong sizes / trailing / truncated under all 5 option shapes, bit-flipped, spliced, liblzma streams, dumb-encoder streams, garbage behind a valid header, expensive-symbol programs, header-only prefixes); chunkings: ALL single cuts and ALL pairs of cuts for inputs <= 64 bytes (thorough: also all triples for inputs <= 26 bytes), every single cut for inputs <= 700 bytes (thorough: 4 KiB), a stream whose last match costs 19 input bytes (17 MiB history) cut at every position around that symbol with and without an earlier cut, 8 pattern families (piece sizes 1..24, sizes around the 20-byte look-ahead, random, empty writes, flush, write_all, symbol boundary +-1); each history compared with the one-shot decoder on the concatenation (verdict; bytes on success); evaluations = stream histories run; distinct by hash of (input, option, cuts) resp. one per exhaustively cut input",
+        rule: "cases = (input bytes, decode option, division into write calls): inputs of 8 kinds (C08 table cells incl. wrong sizes / trailing / truncated under all 5 option shapes, bit-flipped, spliced, liblzma streams, dumb-encoder streams, garbage behind a valid header, expensive-symbol programs, header-only prefixes); chunkings: ALL single cuts and ALL pairs of cuts for inputs <= 64 bytes (thorough: also all triples for inputs <= 26 bytes), every single cut for inputs <= 700 bytes (thorough: 4 KiB), every single cut (plus pairs near a random earlier cut) for constructed streams whose output wraps the 4096-byte window 1-3 times and whose copies / matched literals read the window at its edge slots (0, 1, 2, dict-2, dict-1; distance = dictionary size), a stream whose last match costs 19 input bytes (17 MiB history) cut at every position around that symbol with and without an earlier cut, 8 pattern families (piece sizes 1..24, sizes around the 20-byte look-ahead, random, empty writes, flush, write_all, symbol boundary +-1); each history compared with the one-shot decoder on the concatenation (verdict; bytes on success); evaluations = stream histories run; distinct by hash of (input, option, cuts) resp. one per exhaustively cut input",
         assumptions: vec![
             "oracle is lzma-rs' own one-shot decoder (the property is an equivalence); that decoder is pinned by C01/C08".into(),
             "error text and the call at which an error surfaces may differ; only the final verdict and, on success, the bytes are compared".into(),
@@ -555,6 +661,7 @@ pub fn monitor(tier: Tier) -> Monitor {
             Family { name: "max_cost_symbol", count: tier.pick(2, 24), priority: true, enumerated: false, run: fam_max_cost },
             Family { name: "small_exhaustive", count: tier.pick(600, 30_000), priority: false, enumerated: false, run: fam_small },
             Family { name: "medium_single_cuts", count: tier.pick(250, 8_000), priority: false, enumerated: false, run: fam_medium },
+            Family { name: "wrapped_window_edges", count: tier.pick(80, 6_000), priority: false, enumerated: false, run: fam_wrapped },
             Family { name: "patterns", count: tier.pick(2_500, 120_000), priority: false, enumerated: false, run: fam_patterns },
         ],
         label,
